@@ -263,4 +263,42 @@ def run (cfg : Cfg) (s : State) : List (Nat × Op) → State
 def checkLogs (cfg : Cfg) (s : State) (now : Nat) (performs stales : List Log) : State :=
   run cfg s ((performs.map fun l => (now, Op.perform l)) ++ (stales.map fun l => (now, Op.stale l)))
 
+/-! ### the background poller (`run`) and failing log providers -/
+
+/-- where a poll fails: `PerformLogs` returns an error (or panics) — `checkLogs` returns before anything is
+    processed; `StaleReportLogs` returns `(nil, err)` (or panics) — the perform logs of this poll have been processed;
+    `StaleReportLogs` returns `(logs, err)` — the loop over the returned logs still runs, then the error is returned -/
+inductive PollFail where
+  | perform
+  | stale
+  | stalePartial
+deriving DecidableEq, Repr
+
+/-- `checkLogs` on a poll whose provider fails (it returns the error; a panic is turned into one by `safeCheckLogs`) -/
+def checkLogsFailing (cfg : Cfg) (s : State) (now : Nat) (performs stales : List Log) : PollFail → State
+  | .perform => s
+  | .stale => checkLogs cfg s now performs []
+  | .stalePartial => checkLogs cfg s now performs stales
+
+/-- `cadence := time.Second` -/
+def cadenceNs : Nat := 1000000000
+
+/-- `run`: after a poll at `t` that took `took` ns — failed or not — the timer is re-armed:
+    `took > cadence → 1 µs`, else `cadence - took` -/
+def nextPoll (t took : Nat) : Nat :=
+  if took > cadenceNs then t + took + 1000 else t + took + (cadenceNs - took)
+
+/-- what a log provider sees of a started coordinator during `[0, endT]` -/
+structure PollStats where
+  n      : Nat   -- number of `PerformLogs` calls
+  first  : Nat   -- time of the first (0 if none)
+  last   : Nat   -- time of the last (0 if none)
+  maxGap : Nat   -- largest distance between consecutive calls (0 if fewer than two)
+deriving DecidableEq, Repr
+
+/-- with a provider that answers in zero (virtual) time the polls are at every multiple of the cadence after `Start` -/
+def pollStats (endT : Nat) : PollStats :=
+  let n := endT / cadenceNs
+  { n := n, first := if n = 0 then 0 else cadenceNs, last := n * cadenceNs, maxGap := if n < 2 then 0 else cadenceNs }
+
 end AutoVerif.C17
